@@ -262,6 +262,9 @@ func genReconn(r *Rng, prop string) *Scenario {
 	case "C16", "C13":
 		cfg.PingIntervalUs = r.pickI(3000, 5000, 8000)
 		cfg.KeepAliveSec = 1
+		if r.chance(0.3) {
+			cfg.KeepAliveSec = 0 // pings by WithPingInterval alone, no keep-alive announced in CONNECT
+		}
 		cfg.TimeoutUs = r.pickI(1500, 2500, 4000)
 		if r.chance(0.3) {
 			cfg.TimeoutUs = 0 // default: equals the ping interval
@@ -378,8 +381,10 @@ func genReconn(r *Rng, prop string) *Scenario {
 			w = []int{4, 4, 3, 1, 1, 1, 0, 1, 0, 6, 0, 0, 0}
 		case "C09":
 			w = []int{2, 2, 2, 2, 1, 4, 2, 5, 2, 0, 0, 0, 1}
-		case "C18", "C19":
+		case "C18":
 			w = []int{1, 1, 0, 0, 0, 0, 0, 0, 0, 0, 8, 4, 1}
+		case "C19":
+			w = []int{1, 1, 0, 0, 0, 3, 0, 2, 0, 0, 8, 4, 1}
 		case "C13":
 			w = []int{1, 1, 1, 1, 1, 1, 0, 1, 0, 0, 0, 0, 8}
 		case "C16":
@@ -449,6 +454,7 @@ func genReconn(r *Rng, prop string) *Scenario {
 			o := Out{Conn: int(r.between(1, 4)), Kind: "pkt", Pkt: &Pkt{Type: TPublish, Topic: topics[r.IntN(len(topics))], QoS: q, Pay: fmt.Sprintf("in%d", i)}}
 			if q > 0 {
 				o.Pkt.ID = uint16(100 + i)
+				o.Pkt.Dup = r.chance(0.3) // the broker resends what the previous connection left unfinished
 			}
 			switch r.IntN(3) {
 			case 0:
@@ -484,6 +490,19 @@ func genReconn(r *Rng, prop string) *Scenario {
 		}
 	}
 
+	if prop == "C19" && r.chance(0.4) {
+		// Connect gives up (cancel / deadline) after attempts that were refused
+		// or could not be dialled
+		sc.Faults = append(sc.Faults, Fault{Kind: r.pick("connackRefuse", "connackRefuse", "dialErr"), Conn: 1, Code: byte(r.between(1, 5))})
+		if r.chance(0.5) {
+			sc.Faults = append(sc.Faults, Fault{Kind: r.pick("connackRefuse", "dialErr"), Conn: 2, Code: byte(r.between(1, 5))})
+		}
+		if r.chance(0.5) {
+			sc.Ops = append(sc.Ops, Op{AtUs: connectAt + r.between(200, 4*maxBackoff), Actor: -1, Kind: "cancel", Target: 0})
+		} else {
+			sc.Ops[0].CtxTimeoutUs = r.between(200, 4*maxBackoff)
+		}
+	}
 	// the usual `ctx, cancel := ...; defer cancel()` around Connect: the context
 	// is cancelled some time after Connect returned; the loop must not care
 	if r.chance(0.3) {
